@@ -589,7 +589,7 @@ def check_C06(cx):
 
 def check_C13(cx):
     thms = ["AL.Properties.C13." + t for t in ["pad_only_when_crossing", "instruction_in_one_chunk", "fitting_is_plain_with_pads",
-            "plain_layout", "pads_are_nops", "small_chunk_disables", "chunk_enables", "fitting_call", "pad_is_nops"]] + \
+            "plain_layout", "pads_are_nops", "small_chunk_disables", "chunk_enables", "fitting_call", "pad_is_nops", "second_assembly_same"]] + \
            ["AL.Lemmas.second_round_fits", "AL.Lemmas.emitOne_layout", "AL.Lemmas.runCodes_layout", "AL.Lemmas.pad_aligned"]
     info = stage_proofs(cx, "AL.Properties.C13", thms)
     impl = build_impl(cx)
@@ -1951,6 +1951,50 @@ def check_enc(cx):
         if idx < len(out2) and out2[idx] != "90" + b:
             groups.setdefault((items[t].split()[0], pattern_of(items[t]), "second assembly after padding differs"), []).append(
                 (t, o, out2[idx], "assembled once: " + b))
+    if cx.prop == "C03":
+        # the flagship (theorems C03.mov_r64_*): `mov r64, v` for seeded random and boundary v, all 16 registers, four spellings, the three
+        # mov-immediate modes; oracle: the three encodings of AL.Spec.MovImm.movBytes, computed here independently
+        rr = random.Random(cx.seed * 7919 + 3)
+        vals = [0, 1, 0x7f, 0x80, 0x7fffffff, 0x80000000, 0xffffffff, 0x100000000, 0x7fffffffffffffff, 0x8000000000000000,
+                0xffffffff00000000, 0xffffffff00000001, 0xffffffff7fffffff, 0xffffffff80000000, 0xffffffffffffffff]
+        vals += [rr.getrandbits(rr.choice([8, 16, 31, 32, 33, 48, 63, 64])) for _ in range(60 if quick else 1500)]
+        vals += [(1 << 64) - 1 - rr.getrandbits(rr.choice([8, 31, 32])) for _ in range(20 if quick else 300)]
+        regs = ["rax", "rcx", "rdx", "rbx", "rsp", "rbp", "rsi", "rdi"] + ["r%d" % i for i in range(8, 16)]
+
+        def mov_bytes(n, v, nar):
+            le = lambda k, x: x.to_bytes(k, "little")
+            if v >= 0xffffffff80000000:
+                return bytes([0x48 + n // 8, 0xc7, 0xc0 + n % 8]) + le(4, v % 2 ** 32)
+            if v <= 0xffffffff:
+                if nar:
+                    return (b"\x41" if n >= 8 else b"") + bytes([0xb8 + n % 8]) + le(4, v)
+                if v < 0x80000000:
+                    return bytes([0x48 + n // 8, 0xc7, 0xc0 + n % 8]) + le(4, v)
+            return bytes([0x48 + n // 8, 0xb8 + n % 8]) + le(8, v)
+        mkeys, mexp = [], []
+        for v in vals:
+            for n in ([rr.randrange(16), rr.randrange(16)] if quick else range(16)):
+                pad = rr.choice([0, 0, 1, 3])
+                for sp in range(4):
+                    if sp == 0:
+                        tok, val, full = "0x" + "0" * pad + "%x" % v, v, len("%x" % v) + pad >= 16
+                    elif sp == 1:
+                        tok, val, full = "-0x" + "0" * pad + "%x" % v, (-v) % 2 ** 64, len("%x" % v) + pad + 3 >= 18
+                    elif sp == 2:
+                        tok, val, full = "0" * pad + "%d" % v, v, False
+                    else:
+                        tok, val, full = "-" + "0" * pad + "%d" % v, (-v) % 2 ** 64, False
+                    for o in (0, 1, 2):
+                        nar = (not full) if o == 2 else o == 1
+                        mkeys.append((o | 12, ("mov %s, %s" % (regs[n], tok)).encode()))
+                        mexp.append(mov_bytes(n, val, nar).hex())
+        mops, mout = tie_lines(cx, impl, mkeys, "C03 mov r64, v over random and boundary values")
+        for (o, t), ln, want_b in zip(mkeys, mout, mexp):
+            p_ = ln.split()
+            if p_[0] != "0" or (p_[2] if len(p_) > 2 else "") != want_b:
+                groups.setdefault(("mov", "r64 imm", "not the encoding movBytes of the flagship theorem"), []).append(
+                    (t.decode(), o, p_[2] if len(p_) > 2 else "-", "expected " + want_b))
+        cx.dist_extra = {"mov_r64_imm_lines": len(mkeys)}
     for (mn, pat, reason), exs in groups.items():
         t, o, b, d = exs[0]
         cx.violations.append({"kind": "encoding", "mnemonic": mn, "operands": pat, "reason": reason, "count": len(exs), "line": t, "opt": o,
@@ -1961,7 +2005,7 @@ def check_enc(cx):
     relevant = {(m, f) for m, fs in sup.items() for f in fs}
     cx.dist = {"lines": len(texts), "option_bytes": list(opts), "mixed_sib_option_bytes": list(mixed), "accepted_and_correct": nok, "rejected_supported": nrej,
                "rejected_not_supported_or_expected": nskip, "distinct_encodings": len(codes),
-               "other_spellings": nvar, "second_assemblies": len(expect),
+               "other_spellings": nvar, "second_assemblies": len(expect), **getattr(cx, "dist_extra", {}),
                "supported_forms_exercised": len(covered & relevant), "violation_groups": len(groups)}
     cx.cov["samples"] = [texts[0], texts[len(texts) // 3], texts[len(texts) // 2], texts[-1]]
     cx.assumptions.append("binutils objdump is the second decoder the reference decoder is validated against; an instruction outside the reference "
@@ -1977,6 +2021,8 @@ ENC_THEOREMS = {
     "C02": ["AL.Properties.Sweep.c02_sweep", "AL.Properties.Sweep.c02_sweep_mixed", "AL.Properties.C02.disp_field_reads_back", "AL.Properties.C02.decoder_reads_every_operand", "AL.Spec.X86.leVal_assembleConst", "AL.Spec.X86.toSigned_roundtrip",
             "AL.Properties.C11.swap_same_address", "AL.Properties.C11.nobase_scale2_same_address", "AL.Properties.C11.nobase_scale1_same_address"],
     "C03": ["AL.Properties.Sweep.c03_sweep", "AL.Properties.C03.written_number_value", "AL.Properties.C03.written_number_value_padded", "AL.Properties.C03.imm_field_reads_back", "AL.Properties.C03.imm_field_dword", "AL.Properties.C03.imm_field_qword",
+            "AL.Properties.C03.mov_r64_hex", "AL.Properties.C03.mov_r64_neg_hex", "AL.Properties.C03.mov_r64_dec", "AL.Properties.C03.mov_r64_neg_dec",
+            "AL.Lemmas.MovImm.mov_bytes", "AL.Lemmas.MovText.mov_line", "AL.Spec.MovImm.movResult_movBytes",
             "AL.Lemmas.assembleImm_dword", "AL.Lemmas.assembleImm_qword", "AL.Lemmas.assembleImm_reduced", "AL.Lemmas.assembleConst_pad",
             "AL.Lemmas.strtoul_dec", "AL.Lemmas.strtoul_hex", "AL.Lemmas.strtoul_neg_dec", "AL.Lemmas.strtoul_neg_hex"],
     "C04": ["AL.Properties.Sweep.c04_sweep", "AL.Properties.C04.vex2_is_vex3"],
@@ -2529,7 +2575,14 @@ def cli_args(tokens, outdir):
 
 
 def hex_tokens(text):
-    return "".join(re.findall(r"(?<![0-9a-fx])([0-9a-f]{2})(?= |\n|$)", text))
+    """the bytes asmline -p printed: lines that consist of two-digit hex tokens only (the `-b` report line
+    "10 instructions break a chunk boundary ..." starts with a number that would read as a byte)"""
+    out = []
+    for ln in text.split("\n"):
+        toks = [t for t in ln.split() if t != "|"]      # chunk rows end in a bar
+        if toks and all(re.fullmatch(r"[0-9a-f]{2}", t) for t in toks):
+            out += toks
+    return "".join(out)
 
 
 C20_THEOREMS = ["usage_error_exits", "exit_zero_iff", "option_calls", "option_calls_spec", "parseFlags_opt", "applyLong_opt", "getlines_join", "file_mode_is_library"]
